@@ -26,7 +26,7 @@ from .core import HarnessError
 
 PROPS = ["C11", "C12", "C13", "C14", "C15", "C19"]
 
-KNOWN_FILE = os.path.join(core.VERIF_DIR, "known_findings.txt")
+KNOWN_FILE = os.environ.get("VERIF_KNOWN_FILE") or os.path.join(core.VERIF_DIR, "known_findings.txt")  # override: self-tests only
 
 
 # ---------------------------------------------------------------------------
@@ -214,7 +214,7 @@ def minimise(mod: Any, case: Any, klass: str, budget_s: float) -> tuple[Any, int
 # replay files
 
 
-def write_replay(prop: str, seed: int, case: Any, v: dict[str, Any], minimised: bool, note: str = "") -> str:
+def write_replay(prop: str, seed: int, case: Any, v: dict[str, Any], minimised: bool, note: str = "", readable: Any = None) -> str:
     d = os.environ.get("VERIF_REPLAY_DIR") or os.path.join(core.VERIF_DIR, "replays")
     os.makedirs(d, exist_ok=True)
     name = f"{prop}-{core.digest([case, v['class']])[:12]}.json"
@@ -227,6 +227,7 @@ def write_replay(prop: str, seed: int, case: Any, v: dict[str, Any], minimised: 
                 "violation": v,
                 "minimised": minimised,
                 "note": note,
+                "readable": readable,
                 "case": core.to_jsonable(case),
             },
             f,
@@ -234,6 +235,13 @@ def write_replay(prop: str, seed: int, case: Any, v: dict[str, Any], minimised: 
             sort_keys=True,
         )
     return path
+
+
+def _readable(mod: Any, case: Any) -> Any:
+    try:
+        return core.to_jsonable(mod.sample_of(case)) if hasattr(mod, "sample_of") else None
+    except Exception:
+        return None
 
 
 def replay(prop: str, path: str) -> int:
@@ -372,10 +380,10 @@ def run_check(prop: str, tier: str, seed: int, jobs: int, budget_s: float) -> in
             same = []
         if same:
             vrec = same[0].to_dict()
-            path = write_replay(prop, seed, mini, vrec, True, note)
+            path = write_replay(prop, seed, mini, vrec, True, note, _readable(mod, mini))
         else:
             vrec = v
-            path = write_replay(prop, seed, case, v, False, "minimised case did not reproduce; original case recorded")
+            path = write_replay(prop, seed, case, v, False, "minimised case did not reproduce; original case recorded", _readable(mod, case))
         print(f"seed={seed} case_index={case.get('meta', {}).get('index') if isinstance(case, dict) else None} class={vrec['class']} sig={vrec['sig']}")
         print(f"  {vrec['msg']}")
         print(f"VIOLATION property={prop} replay={path}")
